@@ -371,6 +371,40 @@ def main(tier):
             docs.append(("evolved-%d" % k, evolve.evolve(committed, rng_for(common.seed(), "C18-evo", k), n_ops=4)[0]))
     except ImportError:
         pass
+    # a document that uses EVERY property the tree's own schema allows on the declaration kinds (a schema
+    # that gained a property the loader's classes did not is found here)
+    full = copy.deepcopy(SMALL)
+    defs = schema.get("definitions", {})
+    added = []
+
+    def fill(node, defname):
+        for pn, ps in defs.get(defname, {}).get("properties", {}).items():
+            if pn in node:
+                continue
+            if ps.get("type") == "string":
+                node[pn] = "verif-" + pn
+            elif ps.get("type") == "boolean":
+                node[pn] = True
+            elif ps.get("type") == "array" and ps.get("items", {}).get("type") == "string":
+                node[pn] = ["verif-" + pn]
+            elif str(ps.get("$ref", "")).endswith("/Type"):
+                node[pn] = {"kind": "base", "name": "string"}
+            else:
+                continue
+            added.append("%s.%s" % (defname, pn))
+
+    for sec, defname in (("requests", "Request"), ("notifications", "Notification"), ("structures", "Structure"), ("enumerations", "Enumeration"), ("typeAliases", "TypeAlias")):
+        for node in full[sec][:2]:
+            fill(node, defname)
+    for st in full["structures"][:2]:
+        for p_ in st["properties"][:2]:
+            fill(p_, "Property")
+    for en in full["enumerations"][:2]:
+        for v_ in en["values"][:1]:
+            fill(v_, "EnumerationEntry")
+    if validator.is_valid(full):
+        docs.append(("every-schema-property", full))
+        stats["schema_properties_added"] = len(added)
     for name, d in docs:
         if not validator.is_valid(d):
             rep.inconc("document %s is not schema-valid (harness bug)" % name)
@@ -442,6 +476,41 @@ def main(tier):
             rep.fail("single-file create_lsp_model differs from the document", {})
     except Exception as e:
         rep.fail("create_lsp_model raises on one file|%s" % type(e).__name__, {"error": repr(e)})
+
+    # ---- the COMMAND hands a plugin exactly the given files merged in order (observed through a plugin
+    # of my own that dumps the model it receives); without --model: the packaged lsp.json
+    import tempfile as _tf
+
+    from . import genrun
+
+    probe_root = common.scratch_dir("vf-c18-probe-")
+    try:
+        files = {}
+        for nm, dd in (("small", SMALL), ("add1", ADD1), ("add2", ADD2)):
+            files[nm] = os.path.join(probe_root, nm + ".json")
+            json.dump(dd, open(files[nm], "w"))
+        for label, order in (("one file", ["small"]), ("three files", ["small", "add1", "add2"]), ("three files, other order", ["small", "add2", "add1"]), ("packaged model", [])):
+            stats["merge_cases"] += 1
+            res = genrun.run_generator("vf.probe_plugin", probe_root, models=[files[x] for x in order] or None, tag="probe-" + label.replace(" ", "-").replace(",", ""), extra_env={"PYTHONPATH": genrun.TAP_DIR + os.pathsep + common.REPO + os.pathsep + common.VERIF})
+            rb_path = os.path.join(res.outdir, "model-readback.json")
+            if res.rc != 0 or not os.path.exists(rb_path):
+                rep.fail("generator command fails on schema-valid model files|%s" % label, {"rc": res.rc, "tail": res.out[-500:]})
+                continue
+            got = json.load(open(rb_path, encoding="utf-8"))
+            if order:
+                exp = copy.deepcopy(SMALL)
+                for x in order[1:]:
+                    for sec in ("requests", "notifications", "structures", "enumerations", "typeAliases"):
+                        exp[sec] = exp[sec] + copy.deepcopy({"add1": ADD1, "add2": ADD2}[x][sec])
+            else:
+                exp = committed
+            df = first_diff(normalise(exp), normalise(got))
+            if df:
+                rep.fail("the model handed to the plugin is not the given files merged in order|%s|%s" % (label, generic_path(df[0])), {"path": df[0], "what": df[1]})
+    finally:
+        import shutil as _sh
+
+        _sh.rmtree(probe_root, ignore_errors=True)
 
     # ---- equality is total and structural
     def compare(a, b, expect_equal, label, wit):
